@@ -247,7 +247,7 @@ func cloneMap(m map[string]string) map[string]string {
 var idKinds = []string{"exact", "exact", "subset", "subset", "superset", "near-miss", "near-miss", "ca-subject", "ca-subject",
 	"two-ids", "two-nonmatch", "unknown-prefix", "unknown-prefix+exact", "prefix-case", "wildcard", "empty-attr", "no-sep",
 	"empty-value", "bad-dn", "empty-identity", "wildcard-mixed", "overlap", "none", "eqhash-identity", "space-after-colon",
-	"subset-missing-mandatory", "reversed-superset", "multi-valued-identity", "dup-identity", "bad-then-wildcard", "dup-empty-first"}
+	"subset-missing-mandatory", "reversed-superset", "multi-valued-identity", "dup-identity", "bad-then-wildcard", "dup-empty-first", "prefix-variant-match"}
 
 // genIdentities draws the trusted identities for one case on chain c.
 func genIdentities(rng *Rng, c *apiChain, kind string) []string {
@@ -326,6 +326,12 @@ func genIdentities(rng *Rng, c *apiChain, kind string) []string {
 		return []string{"foo:bar", x(base)}
 	case "prefix-case":
 		return []string{"X509.Subject:" + renderIdentity(rng, base)}
+	case "prefix-variant-match":
+		// the only identity has a prefix that is NOT x509.subject but extends / truncates / pads it, and a value
+		// that matches the leaf: a prefix test by HasPrefix / HasSuffix / Contains / TrimSpace would accept it
+		p := Pick(rng, []string{"x509.subjectX", "x509.subject.v2", "x509.subjects", "x509.subject ", " x509.subject",
+			"ax509.subject", "x509.subjec", "x509", "x509.subject\t", "x509_subject", "x509.subject.x509.subject"})
+		return []string{p + ":" + renderIdentity(rng, base)}
 	case "wildcard":
 		return []string{"*"}
 	case "empty-attr":
